@@ -47,6 +47,13 @@ Section Gen.
     - apply (IH (with_p rs (drop_output (rs_p rs) h (ds_life d) (out_inst (ds_reg d) inv k)))); [exact Hl|].
       apply g_drop; assumption.
   Qed.
+  Lemma g_drop_only ks : forall rs d inv, ds_life d <> Singleton -> Q rs -> Q (with_p rs (drop_only (rs_p rs) h d inv ks)).
+  Proof.
+    induction ks as [|k rest IH]; intros rs d inv Hl H; cbn [drop_only]; [rewrite surj_rs; exact H|].
+    destruct (output_desc (p_descs (rs_p rs)) d k); [apply IH; assumption|].
+    apply (IH (with_p rs (drop_output (rs_p rs) h (ds_life d) (out_inst (ds_reg d) inv k)))); [exact Hl|].
+    apply g_drop; assumption.
+  Qed.
 
   Section WithRec.
     Variable recd : rstate -> nat -> desc -> rstate * rres.
@@ -112,7 +119,8 @@ Section Gen.
         assert (H3 : Q (if cancels (ds_reg d) inv then log rs2' EvCancel else rs2')) by (destruct (cancels (ds_reg d) inv); [apply Q_cancel|]; exact H2).
         set (rs2 := if cancels (ds_reg d) inv then log rs2' EvCancel else rs2') in *.
         destruct o; cbn [fst]; try exact H3.
-        apply g_fan_out; assumption.
+        match goal with |- context [stores_any ?a ?b ?c] => destruct (stores_any a b c) end; cbn [fst];
+          [apply g_fan_out|apply g_drop_only]; assumption.
     Qed.
   End WithRec.
 
@@ -170,6 +178,12 @@ Section GenAll.
       apply (IH (with_p rs (store (ds_life d) (rs_p rs) h (ds_ident d0) (out_inst (ds_reg d) inv k)))). apply ga_store; assumption.
     - apply (IH (with_p rs (drop_output (rs_p rs) h (ds_life d) (out_inst (ds_reg d) inv k)))). apply ga_drop; assumption.
   Qed.
+  Lemma ga_drop_only ks : forall rs d inv, Q rs -> Q (with_p rs (drop_only (rs_p rs) h d inv ks)).
+  Proof.
+    induction ks as [|k rest IH]; intros rs d inv H; cbn [drop_only]; [rewrite surj_rs; exact H|].
+    destruct (output_desc (p_descs (rs_p rs)) d k); [apply IH; assumption|].
+    apply (IH (with_p rs (drop_output (rs_p rs) h (ds_life d) (out_inst (ds_reg d) inv k)))). apply ga_drop; assumption.
+  Qed.
 
   Section WithRec.
     Variable recd : rstate -> nat -> desc -> rstate * rres.
@@ -207,7 +221,8 @@ Section GenAll.
         assert (H3 : Q (if cancels (ds_reg d) inv then log rs2' EvCancel else rs2')) by (destruct (cancels (ds_reg d) inv); [apply Q_cancel|]; exact H2).
         set (rs2 := if cancels (ds_reg d) inv then log rs2' EvCancel else rs2') in *.
         destruct o; cbn [fst]; try exact H3.
-        apply ga_fan_out; assumption.
+        match goal with |- context [stores_any ?a ?b ?c] => destruct (stores_any a b c) end; cbn [fst];
+          [apply ga_fan_out|apply ga_drop_only]; assumption.
     Qed.
   End WithRec.
 
